@@ -50,6 +50,7 @@ const (
 )
 
 type counters struct {
+	VotesGranted int64
 	Actions, Delivered, Lost, Duplicated, Readies, Ticks  int64
 	Proposals, Committed                                  int64
 	MaxTerm, MaxLog                                       uint64
@@ -122,6 +123,7 @@ type sim struct {
 	isolated uint64 // bit i set = node id i is cut off
 
 	leaders  map[uint64]uint64 // term -> the one node ever seen as leader in it
+	granted  map[[2]uint64]uint64 // (node, term) -> the candidate whose vote request that node granted in that term
 	table    []centry          // committed table, by index
 	maxTable uint64
 	confIdxs []uint64 // ascending indexes of committed conf-change entries
@@ -212,7 +214,7 @@ func newSim(cfg Cfg) *sim {
 	if cfg.Seed != 0 { // 0: keep the current jitter source (BFS runs, where no follower is ever ticked)
 		raft.VerifSeedRand(cfg.Seed)
 	}
-	s := &sim{cfg: cfg, leaders: map[uint64]uint64{}, csAt: map[uint64]pb.ConfState{}, ccLost: map[string]int64{}}
+	s := &sim{cfg: cfg, leaders: map[uint64]uint64{}, granted: map[[2]uint64]uint64{}, csAt: map[uint64]pb.ConfState{}, ccLost: map[string]int64{}}
 	s.lg = &quietLogger{s: s}
 	s.table = make([]centry, 64)
 	for i := 1; i <= cfg.Voters; i++ {
@@ -753,6 +755,31 @@ func (s *sim) processReady(n *node, stopAt int) bool {
 	for _, m := range rd.Messages {
 		if m.Type == pb.MsgSnap {
 			s.ct.SnapSent++
+		}
+		// What a node tells its peers must rest on what it would still know after a crash at this
+		// very moment (everything of this Ready has been persisted above): a granted vote on the
+		// persisted (term, vote), an accepted append on the persisted log. Otherwise crash + restart
+		// lets it vote twice in a term / lets a leader count an entry that a majority no longer has.
+		switch {
+		case m.Type == pb.MsgVoteResp && !m.Reject:
+			// (a persisted term beyond the message's term is fine: the node moved on before this Ready
+			// was taken, and will never vote in the older term again)
+			if n.hs.Term < m.Term || (n.hs.Term == m.Term && n.hs.Vote != m.To) {
+				s.failf("election safety: node %d grants its vote to %d in term %d, but what it has persisted at that moment is term %d vote %d: after a crash it could vote again in that term",
+					n.id, m.To, m.Term, n.hs.Term, n.hs.Vote)
+			}
+			k := [2]uint64{n.id, m.Term}
+			if prev, ok := s.granted[k]; ok && prev != m.To {
+				s.failf("election safety: node %d grants its vote to %d in term %d after having granted it to %d in the same term", n.id, m.To, m.Term, prev)
+			}
+			s.granted[k] = m.To
+			s.ct.VotesGranted++
+		case m.Type == pb.MsgAppResp && !m.Reject:
+			// only within the term the node is still in: an acknowledgement produced for an older
+			// leader may describe entries that a newer leader has legitimately overwritten since
+			if last, _ := n.ms.LastIndex(); n.hs.Term == m.Term && last < m.Index {
+				s.failf("commitment: node %d acknowledges the log up to index %d, but its persisted log ends at %d: the leader may commit an entry this node loses in a crash", n.id, m.Index, last)
+			}
 		}
 		s.send(cloneMsg(m))
 	}
